@@ -244,6 +244,9 @@ def run(shard, ctx):
                 sense = env.unique_sense(rng) if status == 2 else None
                 env.plan = [(status, sense)]
                 cmd = fresh_cmd(env, rng, "tur")
+                # the logout at the end of the block may itself fail (the target dropped the connection): the binding then answers
+                # with a negative number
+                env.isc.disconnect_result = (None, 0, -1, -5)[status % 4]
                 try:
                     if how == "with_device":
                         with dev as d:
@@ -255,6 +258,7 @@ def run(shard, ctx):
                     outcome, exc = "returned", None
                 except Exception as e:  # noqa: BLE001
                     outcome, exc = "raised", e
+                env.isc.disconnect_result = None
                 ctx.case((t, how, status), status != 0)
                 ctx.count("binding_calls")
                 old_dev, env.dev = env.dev, dev
